@@ -425,16 +425,20 @@ PROPS["C14"]["harnesses"] += [
 _FS256 = ("--max-field-sensitivity-array-size", "300")
 _ISO_B = "unwind 12; prefixes and names of exactly 2 bytes from [a-z0-9_] (lengths concrete, bytes symbolic)"
 PROPS["C19"]["harnesses"] += [
-    # quick tier: the file name / path is written down directly and each harness makes one or two calls of the real
+    # the file name / path is written down directly and each harness makes one to three calls of the real
     # extract_name_from_file / extract_name_from_path (255-byte strings: every call costs millions of variables);
-    # c19_path_for_shape ties the directly written form to what path_for really produces
-    H("cal::c19iso::c19_path_for_shape", features=CAL, covers=0, timeout=2400, mem_gb=14, tiers=("quick",),
+    # quick tier: one call each (foreign prefix, prefix of a prefix); thorough: round trip, suffix, mixed lengths, and
+    # c19_path_for_shape, which ties the directly written form to what path_for really produces
+    H("cal::c19iso::c19_foreign_prefix_direct", features=CAL, covers=1, timeout=2400, mem_gb=20, tiers=("quick",),
+      what="extract_name_from_file, the isolation statement itself: a domain with an unrelated prefix never extracts a "
+           "name from the file of another domain", bounds=_ISO_B),
+    H("cal::c19iso::c19_path_for_shape", features=CAL, covers=0, timeout=3600, mem_gb=18, tiers=("thorough",),
       what="NamedConceptConfiguration::path_for produces exactly <root>/<prefix><name><suffix> (lies under the root)",
       bounds=_ISO_B),
-    H("cal::c19iso::c19_cross_domain_direct", features=CAL, covers=2, timeout=2400, mem_gb=22, tiers=("quick",),
+    H("cal::c19iso::c19_cross_domain_direct", features=CAL, covers=2, timeout=3600, mem_gb=22, tiers=("thorough",),
       what="extract_name_from_file: a name round-trips through its own domain; a domain with an unrelated prefix or a "
            "different suffix never extracts a name from the file", bounds=_ISO_B),
-    H("cal::c19iso::c19_cross_domain_direct_mixed_len", features=CAL, covers=2, timeout=2400, mem_gb=22, tiers=("quick",),
+    H("cal::c19iso::c19_cross_domain_direct_mixed_len", features=CAL, covers=2, timeout=3600, mem_gb=22, tiers=("thorough",),
       what="same with prefixes of different length (1 and 2 bytes): non-interference whenever neither prefix is a "
            "prefix of the other", bounds="unwind 12; prefix lengths 1/2, names of 2 bytes"),
     H("cal::c19iso::c19_cross_domain_direct_prefix_of_prefix", features=CAL, covers=0, timeout=2400, mem_gb=20,
@@ -871,6 +875,7 @@ c09_s_robust_recover_vs_recover c09_s_robust_recover_vs_owner c09_s_uis_race_cap
 c13_q_race_detach_before_registration c13_forced_removal
 c05_ev_history c05_bitset_history_deep
 c14_container
+c19_cross_domain_direct c19_cross_domain_direct_mixed_len c19_path_for_shape
 """.split())
 for _p in PROPS:
     for _h in PROPS[_p]["harnesses"]:
